@@ -741,6 +741,8 @@ def compare(off, on):
             extra_on = [r for r in (on.get(key) or []) if r not in (off.get(key) or [])]
             if extra_on:
                 sig = {"exception": extra_on[0][1], "site": extra_on[0][2] if len(extra_on[0]) > 2 else extra_on[0][0]}
+                diff = "with logging on, %s raised %s (innermost frame: %s) -- not raised with logging off; %s" % (
+                    extra_on[0][0], extra_on[0][1], sig["site"], diff)
         if key == "sent":
             diff = _explain_sent(off, on) or diff
         bad.append(("logging changed the subject's %s: %s" % (key, diff), sig))
@@ -793,16 +795,16 @@ def check_on_run(case, obs, extras):
                     break
         recv = [e for e in events if e["name"] == "transport:packet_received"
                 and e["data"]["header"].get("packet_type") in QLOG_PTYPE]
-        expected = counter.ok - counter.ok_reserved
-        if len(recv) != expected:
-            bad.append(("qlog has %d packet_received records but the subject successfully decrypted %d packets (reserved-bit closes excluded)"
-                        % (len(recv), expected), {"rule": "record_count", "dir": "received"}))
-        if counter.ok_reserved:
-            # a decrypted packet whose reserved bits are set closes the connection: is it recorded at all?
-            extras["reserved_bit_packets"] = counter.ok_reserved
-            if len(recv) < counter.ok:
-                bad.append(("%d successfully decrypted packet(s) with reserved header bits set have no packet_received / packet_dropped record"
-                            % (counter.ok - len(recv)), {"rule": "record_count", "dir": "received", "site": "reserved_bits"}))
+        if len(recv) != counter.ok:
+            missing = counter.ok - len(recv)
+            if counter.ok_reserved and missing == counter.ok_reserved:
+                # a decrypted packet whose reserved header bits are set closes the connection before anything is logged
+                bad.append(("%d successfully decrypted packet(s) with reserved header bits set have no packet_received / packet_dropped "
+                            "record (%d records, %d decrypted)" % (missing, len(recv), counter.ok),
+                            {"rule": "record_count", "dir": "received", "site": "reserved_bits"}))
+            else:
+                bad.append(("qlog has %d packet_received records but the subject successfully decrypted %d packets" % (len(recv), counter.ok),
+                            {"rule": "record_count", "dir": "received"}))
         dropped = collections.Counter(e["data"].get("trigger") for e in events if e["name"] == "transport:packet_dropped")
         extras["dropped"] = dict(dropped)
         if dropped.get("payload_decrypt_error", 0) != counter.crypto_error:
@@ -867,6 +869,10 @@ def paired(sim, case):
         # an exception raised only with logging on explains every other difference of this pair: report the root cause
         bad = exc[:1]
     else:
+        if len(bad) > 1:
+            # one pair, one report: the first differing observable (in the order of COMPARED); the rest are consequences
+            others = sorted({b[1].get("rule", "?").replace("paired_", "") for b in bad[1:]})
+            bad = [(bad[0][0] + "  [also differing in this pair: %s]" % ", ".join(others), bad[0][1])]
         bad += bad_on
     stats = {
         "datagrams": ex_on["n_datagrams"], "packets_sent": len(on["wire_packets"]), "events": len(on["events"]),
@@ -976,9 +982,198 @@ def case_key(case):
 # encoder model <-> logger.py correspondence (model/LogEnc.v, exec_logenc)
 
 
-def enc_suite(ctx):
-    from props import c20_enc
-    return c20_enc.suite(ctx)
+UTF8_BOUNDARY = [
+    b"", b"a", b"\x7f", b"\x80", b"\xbf", b"\xc0\x80", b"\xc1\xbf", b"\xc2\x80", b"\xdf\xbf", b"\xc2", b"\xc2\x7f", b"\xc2\xc0",
+    b"\xe0\x80\x80", b"\xe0\x9f\xbf", b"\xe0\xa0\x80", b"\xe0\xa0", b"\xed\x9f\xbf", b"\xed\xa0\x80", b"\xed\xbf\xbf",
+    b"\xee\x80\x80", b"\xef\xbf\xbf", b"\xf0\x8f\xbf\xbf", b"\xf0\x90\x80\x80", b"\xf0\x90\x80", b"\xf4\x8f\xbf\xbf",
+    b"\xf4\x90\x80\x80", b"\xf5\x80\x80\x80", b"\xf8\x88\x80\x80\x80", b"\xff", b"\xfe", b"caf\xe9", b"caf\xc3\xa9",
+    "\u20ac".encode(), "\U0001F600".encode(), b"a\x80b", b"\xe2\x82", b"\xe2\x28\xa1", b"\xf0\x28\x8c\xbc", b" lead", b"trail ",
+    b"\ttab", b"nul\x00", b"lf\n", b"cr\r", b"ok value", b":path", b"x-ok", b"X-Upper", b"a:b", b"sp ace", b"\x7f", b"del\x7f",
+]
+
+
+def _rand_bytes_utf8ish(rng):
+    r = rng.random()
+    if r < 0.25:
+        return rng.choice(UTF8_BOUNDARY)
+    if r < 0.45:
+        return "".join(chr(rng.choice([rng.randrange(0x20, 0x7f), rng.randrange(0x80, 0x800), rng.randrange(0x800, 0xD800),
+                                       rng.randrange(0xE000, 0x10000), rng.randrange(0x10000, 0x110000)])) for _ in range(rng.randint(0, 6))).encode()
+    if r < 0.6:
+        b = bytearray(rng.choice(UTF8_BOUNDARY) + rng.choice(UTF8_BOUNDARY))
+        if b:
+            b[rng.randrange(len(b))] = rng.randrange(256)
+        return bytes(b)
+    if r < 0.8:
+        return bytes(rng.choice([0x41, 0x61, 0x80, 0xBF, 0xC2, 0xE0, 0xED, 0xF0, 0xF4, 0xA0, 0x9F, 0x90, 0x8F, 0x20, 0x09]) for _ in range(rng.randint(0, 5)))
+    return rng.randbytes(rng.randint(0, 8))
+
+
+def enc_gen(rng, n):
+    cases = []
+    for i in range(8):
+        cases.append({"k": 1, "idx": i - 1})
+    for b in UTF8_BOUNDARY:
+        for k in (2, 3, 4, 5):
+            cases.append({"k": k, "data": list(b)})
+        cases.append({"k": 6, "hs": [[list(b"x-h"), list(b)]]})
+        cases.append({"k": 6, "hs": [[list(b), list(b"v")]]})
+    for _ in range(n):
+        k = rng.choice([2, 3, 3, 3, 4, 5, 6, 6, 6])
+        if k == 6:
+            hs = []
+            for _ in range(rng.randint(0, 4)):
+                name = rng.choice([b"x-a", b":path", b"content-type", _rand_bytes_utf8ish(rng)])
+                hs.append([list(name), list(_rand_bytes_utf8ish(rng))])
+            cases.append({"k": 6, "hs": hs})
+        else:
+            cases.append({"k": k, "data": list(_rand_bytes_utf8ish(rng))})
+    return cases
+
+
+def enc_encode(c):
+    if c["k"] == 1:
+        return [1, c["idx"]]
+    if c["k"] == 6:
+        t = [6, len(c["hs"])]
+        for n, v in c["hs"]:
+            t += [len(n)] + list(n) + [len(v)] + list(v)
+        return t
+    return [c["k"], len(c["data"])] + list(c["data"])
+
+
+def _trace():
+    from aioquic.quic.logger import QuicLoggerTrace
+    return QuicLoggerTrace(is_client=True, odcid=bytes(8))
+
+
+def enc_impl(c):
+    from aioquic.quic import logger as ql
+    from aioquic.quic.packet import QuicPacketType
+    from aioquic.h3 import connection as h3c
+    k = c["k"]
+    try:
+        if k == 1:
+            members = list(QuicPacketType)
+            arg = members[c["idx"]] if 0 <= c["idx"] < len(members) else object()
+            _trace().packet_type(arg)
+            return [0]
+        data = bytes(c.get("data", []))
+        if k == 2:
+            out = ql.hexdump(data)
+            return [0, len(out)] + [ord(ch) for ch in out]
+        if k == 3:
+            data.decode("utf8")
+            return [0, len(data)] + list(data)
+        if k == 4:
+            try:
+                h3c.validate_header_value(b"x", data)
+                return [1]
+            except h3c.ProtocolError:
+                return [0]
+        if k == 5:
+            try:
+                h3c.validate_header_name(data)
+                return [1]
+            except h3c.ProtocolError:
+                return [0]
+        if k == 6:
+            out = _trace()._encode_http3_headers([(bytes(n), bytes(v)) for n, v in c["hs"]])
+            json.dumps(out)
+            return [0, len(out)]
+    except KeyError:
+        return [1, 1]
+    except UnicodeDecodeError:
+        return [1, 2]
+    return [9]
+
+
+def enc_oracle(c):
+    """encoders_total on the implementation: an encoder must not raise for arguments its call sites can pass."""
+    from aioquic.quic import logger as ql
+    from aioquic.quic.packet import QuicPacketType
+    from aioquic.h3 import connection as h3c
+    k = c["k"]
+    if k == 1:
+        members = list(QuicPacketType)
+        if 0 <= c["idx"] < len(members):
+            try:
+                _trace().packet_type(members[c["idx"]])
+            except Exception as exc:
+                return ("packet_type(%s) raised %r" % (members[c["idx"]], exc), {"exception": type(exc).__name__, "site": "packet_type"})
+        return None
+    if k == 2:
+        try:
+            ql.hexdump(bytes(c["data"]))
+        except Exception as exc:
+            return ("hexdump raised %r" % (exc,), {"exception": type(exc).__name__, "site": "hexdump"})
+        return None
+    if k == 6:
+        hs = [(bytes(n), bytes(v)) for n, v in c["hs"]]
+        for n, v in hs:      # only header lists the receive path lets through
+            try:
+                h3c.validate_header_name(n)
+                h3c.validate_header_value(n, v)
+            except h3c.ProtocolError:
+                return None
+        t = _trace()
+        for which, fn in (("encode_http3_headers_frame", lambda: t.encode_http3_headers_frame(length=3, headers=hs, stream_id=0)),
+                          ("encode_http3_push_promise_frame", lambda: t.encode_http3_push_promise_frame(length=3, headers=hs, push_id=0, stream_id=0))):
+            try:
+                json.dumps(fn())
+            except Exception as exc:
+                tb = traceback.extract_tb(exc.__traceback__)
+                return ("%s raised %r for validated headers %r" % (which, exc, hs), {"exception": type(exc).__name__, "site": tb[-1].name if tb else which})
+    return None
+
+
+def enc_suite(ctx, reported_sigs):
+    suppressed = collections.Counter()
+
+    def oracle(c):
+        bad = enc_oracle(c)
+        if bad and json.dumps(bad[1], sort_keys=True) in reported_sigs:
+            suppressed[json.dumps(bad[1], sort_keys=True)] += 1      # same finding as already reported: counted, not repeated
+            return None
+        return bad
+
+    def ops(c):
+        return c["hs"] if c["k"] == 6 else [[x] for x in c.get("data", [])] if c["k"] != 1 else [c["idx"]]
+
+    def rebuild(c, o):
+        d = dict(c)
+        if c["k"] == 6:
+            d["hs"] = o
+        elif c["k"] != 1:
+            d["data"] = [x[0] for x in o]
+        return d
+
+    def simplify(op):
+        # shrink a header to shorter name / value
+        if isinstance(op, list) and len(op) == 2 and isinstance(op[0], list):
+            n, v = op
+            outs = []
+            if n != list(b"x"):
+                outs.append([list(b"x"), v])
+            for i in range(len(v)):
+                outs.append([n, v[:i] + v[i + 1:]])
+            return outs
+        return []
+
+    su = corr.Suite(ctx, "logenc", "exec_logenc", enc_encode, enc_impl, oracle, ops, rebuild,
+                    nontrivial=lambda c, out: c["k"] == 1 or bool(c.get("data") or c.get("hs")),
+                    opname=lambda o: "item", simplify=simplify)
+    su.run(corr.load_corpus("C20", "logenc"), "corpus")
+    cases = enc_gen(ctx.rng, ctx.n(4000, 60000))
+    # first the deterministic boundary table one case at a time until something is reported, then the bulk
+    for c in cases:
+        bad = enc_oracle(c)
+        if bad and json.dumps(bad[1], sort_keys=True) not in reported_sigs:
+            su.run([c])
+            reported_sigs.add(json.dumps(bad[1], sort_keys=True))
+    su.run(cases)
+    su.suppressed = dict(suppressed)
+    return su
 
 
 # ======================================================================================
@@ -990,7 +1185,7 @@ def run(ctx):
     t0 = time.time()
     rng = ctx.rng
     corpus = corr.load_corpus("C20", "paired")
-    cases = list(corpus) + [F7_MINIMAL] + gen_cases(rng, ctx.n(64, 900), ctx.n(46, 700), ctx.n(30, 400), ctx.n(10, 60))
+    cases = list(corpus) + gen_cases(rng, ctx.n(200, 2500), ctx.n(160, 2000), ctx.n(90, 1000), ctx.n(16, 120))
     agg = collections.Counter()
     kinds = collections.Counter()
     frames = collections.Counter()
@@ -1037,7 +1232,7 @@ def run(ctx):
     # encoder model vs logger.py
     enc_cov = None
     try:
-        es = enc_suite(ctx)
+        es = enc_suite(ctx, set(sig_seen))
         enc_cov = es
     except Exception as exc:
         core.log("encoder correspondence failed: %r" % (exc,))
@@ -1065,6 +1260,7 @@ def run(ctx):
     }
     if enc_cov is not None:
         cov["correspondence"] = {"logenc": enc_cov.summary()}
+        cov["correspondence"]["logenc"]["oracle_failures_same_signature_as_reported"] = enc_cov.suppressed
         cov["evaluations"] += enc_cov.stats["cases"]
         cov["distinct_nontrivial"] += enc_cov.stats["distinct_nontrivial"]
     return cov
@@ -1087,6 +1283,10 @@ def replay(ctx, rep):
     case = rep["case"]
     if isinstance(case, str):
         case = json.loads(case)
+    if "k" in case:       # encoder correspondence case
+        bad = enc_oracle(case)
+        return {"impl": enc_impl(case), "model": core.run_model("exec_logenc", [enc_encode(case)], shards=1)[0],
+                "oracle": {"what": bad[0], "signature": bad[1]} if bad else None}
     off, _ = run_once(sim, case, False)
     on, ex = run_once(sim, case, True)
     bad = compare(off, on) + check_on_run(case, on, ex)
